@@ -4,7 +4,7 @@
 From Coq Require Import String Floats.SpecFloat.
 From Statham.Model Require Import Str Json Elem PyNum Validate Tables Parser Spec6 Plain RunHelpers.
 From Statham.Generated Require Gen_unicode Gen_reserved Gen_constants Gen_parser_tables.
-From Statham.Proofs Require Import JsonEqProof C01Vm C01Plain C01Parse.
+From Statham.Proofs Require Import JsonEqProof C01Vm C01Plain C01Parse C01Thread.
 Local Open Scope string_scope.
 Local Open Scope list_scope.
 
@@ -16,11 +16,11 @@ Definition ex_schema : json := (JObj [((s_ "title"), (JStr (s_ "order line"))); 
 Definition ex_good : list json := [(JObj [((s_ "sku"), (JStr (s_ "AB"))); ((s_ "qty"), (JInt (3)%Z)); ((s_ "x_a"), (JFlt (S754_finite false 5629499534213120%positive (-51)%Z)))]); (JObj [((s_ "sku"), (JStr (s_ "AB"))); ((s_ "qty"), (JInt (3)%Z)); ((s_ "tags"), (JArr [(JStr (s_ "a")); (JStr (s_ "b"))])); ((s_ "pair"), (JArr [(JInt (1)%Z); JNull]))])].
 Definition ex_bad : list json := [(JObj [((s_ "sku"), (JStr (s_ "ab"))); ((s_ "qty"), (JInt (3)%Z))]); (JObj [((s_ "sku"), (JStr (s_ "AB"))); ((s_ "qty"), (JInt (0)%Z)); ((s_ "x_a"), (JInt (1)%Z))]); (JObj [((s_ "sku"), (JStr (s_ "AB"))); ((s_ "qty"), (JInt (1)%Z)); ((s_ "zzz"), (JInt (1)%Z))]); (JObj [((s_ "sku"), (JStr (s_ "AB"))); ((s_ "qty"), (JInt (2)%Z)); ((s_ "tags"), (JArr [(JStr (s_ "a")); (JStr (s_ "a"))]))]); (JObj [((s_ "sku"), (JStr (s_ "AB"))); ((s_ "qty"), (JInt (2)%Z)); ((s_ "pair"), (JArr [(JInt (1)%Z); (JStr (s_ "s")); (JInt (3)%Z)])); ((s_ "tags"), (JArr []))]); (JObj [((s_ "sku"), (JStr (s_ "AB"))); ((s_ "qty"), (JInt (2)%Z)); ((s_ "opt"), (JBool false))]); (JObj [((s_ "sku"), (JStr (s_ "AB"))); ((s_ "qty"), (JInt (2)%Z)); ((s_ "x_a"), (JInt (10)%Z))]); (JArr [(JInt (1)%Z)]); (JInt (7)%Z); (JObj [((s_ "sku"), (JStr (s_ "AB"))); ((s_ "qty"), (JInt (2)%Z)); ((s_ "toolong"), (JInt (1)%Z))])].
 
-Example ex_in_fragment : plainb ex_cfg 10 ex_schema = true.
+Example ex_in_fragment : plainb ex_cfg false 10 ex_schema = true.
 Proof. vm_compute. reflexivity. Qed.
 
-Example ex_premises : plain ex_cfg ex_schema /\ comp_complete ex_cfg.
-Proof. split; [exact (plainb_sound ex_cfg 10 ex_schema ex_in_fragment)|apply real_comp_complete]. Qed.
+Example ex_premises : plain ex_cfg false ex_schema /\ comp_complete ex_cfg.
+Proof. split; [exact (plainb_sound ex_cfg false 10 ex_schema ex_in_fragment)|apply real_comp_complete]. Qed.
 
 Definition ex_elem : option elem :=
   match parse_element ex_cfg ex_schema [] with POk (e, _) => Some e | PErr _ => None end.
@@ -30,6 +30,34 @@ Example ex_parses_and_decides :
   | Some e =>
     forallb (fun v => is_ok (build ex_O e (Some v)) && v6 ex_O WCode ex_schema v) ex_good = true /\
     forallb (fun v => match build ex_O e (Some v) with Rej => negb (v6 ex_O WCode ex_schema v) | _ => false end) ex_bad = true
+  | None => False
+  end.
+Proof. vm_compute. split; reflexivity. Qed.
+
+(* ---- a schema with classes: nested and composed object nodes, a required property waived by
+   its default, additionalProperties false on a class ---- *)
+Definition exo_O : oracles := tbl_oracles [((s_ "^[A-Z]"), [(s_ "A"); (s_ "B"); (s_ "C")]); ((s_ "^x_"), [(s_ "x_1")])] [].
+Definition exo_schema : json := (JObj [((s_ "type"), (JStr (s_ "object"))); ((s_ "title"), (JStr (s_ "order"))); ((s_ "required"), (JArr [(JStr (s_ "id")); (JStr (s_ "lines")); (JStr (s_ "note"))])); ((s_ "properties"), (JObj [((s_ "id"), (JObj [((s_ "type"), (JStr (s_ "integer"))); ((s_ "minimum"), (JInt (1)%Z))])); ((s_ "note"), (JObj [((s_ "type"), (JStr (s_ "string"))); ((s_ "default"), (JStr (s_ "-")))])); ((s_ "lines"), (JObj [((s_ "type"), (JStr (s_ "array"))); ((s_ "minItems"), (JInt (1)%Z)); ((s_ "items"), (JObj [((s_ "type"), (JStr (s_ "object"))); ((s_ "title"), (JStr (s_ "line"))); ((s_ "required"), (JArr [(JStr (s_ "sku"))])); ((s_ "properties"), (JObj [((s_ "sku"), (JObj [((s_ "type"), (JStr (s_ "string"))); ((s_ "pattern"), (JStr (s_ "^[A-Z]")))])); ((s_ "qty"), (JObj [((s_ "type"), (JStr (s_ "integer"))); ((s_ "default"), (JInt (1)%Z))]))])); ((s_ "additionalProperties"), (JBool false))]))])); ((s_ "buyer"), (JObj [((s_ "anyOf"), (JArr [(JObj [((s_ "type"), (JStr (s_ "object"))); ((s_ "title"), (JStr (s_ "person"))); ((s_ "properties"), (JObj [((s_ "name"), (JObj [((s_ "type"), (JStr (s_ "string")))]))])); ((s_ "required"), (JArr [(JStr (s_ "name"))]))]); (JObj [((s_ "type"), (JStr (s_ "null")))])]))]))])); ((s_ "patternProperties"), (JObj [((s_ "^x_"), (JObj []))])); ((s_ "additionalProperties"), (JBool false)); ((s_ "maxProperties"), (JInt (6)%Z)); ((s_ "dependencies"), (JObj [((s_ "buyer"), (JArr [(JStr (s_ "note"))]))]))]).
+Definition exo_good : list json := [(JObj [((s_ "id"), (JInt (1)%Z)); ((s_ "lines"), (JArr [(JObj [((s_ "sku"), (JStr (s_ "A")))])]))]); (JObj [((s_ "id"), (JInt (2)%Z)); ((s_ "note"), (JStr (s_ "n"))); ((s_ "lines"), (JArr [(JObj [((s_ "sku"), (JStr (s_ "B"))); ((s_ "qty"), (JInt (2)%Z))])])); ((s_ "buyer"), (JObj [((s_ "name"), (JStr (s_ "z")))])); ((s_ "x_1"), (JArr [(JInt (1)%Z)]))]); (JObj [((s_ "id"), (JInt (3)%Z)); ((s_ "lines"), (JArr [(JObj [((s_ "sku"), (JStr (s_ "C")))])])); ((s_ "buyer"), JNull); ((s_ "note"), (JStr (s_ "q")))])].
+Definition exo_bad : list json := [(JObj [((s_ "lines"), (JArr [(JObj [((s_ "sku"), (JStr (s_ "A")))])]))]); (JObj [((s_ "id"), (JInt (0)%Z)); ((s_ "lines"), (JArr [(JObj [((s_ "sku"), (JStr (s_ "A")))])]))]); (JObj [((s_ "id"), (JInt (1)%Z)); ((s_ "lines"), (JArr []))]); (JObj [((s_ "id"), (JInt (1)%Z)); ((s_ "lines"), (JArr [(JObj [((s_ "sku"), (JStr (s_ "a")))])]))]); (JObj [((s_ "id"), (JInt (1)%Z)); ((s_ "lines"), (JArr [(JObj [((s_ "sku"), (JStr (s_ "A"))); ((s_ "zz"), (JInt (1)%Z))])]))]); (JObj [((s_ "id"), (JInt (1)%Z)); ((s_ "lines"), (JArr [(JObj [((s_ "sku"), (JStr (s_ "A")))])])); ((s_ "buyer"), (JObj []))]); (JObj [((s_ "id"), (JInt (1)%Z)); ((s_ "lines"), (JArr [(JObj [((s_ "sku"), (JStr (s_ "A")))])])); ((s_ "buyer"), (JObj [((s_ "name"), (JStr (s_ "n")))]))]); (JObj [((s_ "id"), (JInt (1)%Z)); ((s_ "lines"), (JArr [(JObj [((s_ "sku"), (JStr (s_ "A")))])])); ((s_ "other"), (JInt (1)%Z))]); (JArr [(JInt (1)%Z)]); (JStr (s_ "s"))].
+
+Example exo_in_fragment : in_fragment ex_cfg true 12 exo_schema = true.
+Proof. vm_compute. reflexivity. Qed.
+
+Example exo_premises : plain ex_cfg true exo_schema /\ (exists u', walk ex_cfg [] exo_schema u') /\ comp_exact ex_cfg.
+Proof.
+  destruct (in_fragment_sound ex_cfg true 12 exo_schema exo_in_fragment) as [H1 H2].
+  split; [exact H1|split; [exact H2|apply real_comp_exact]].
+Qed.
+
+Definition exo_elem : option elem :=
+  match parse_element ex_cfg exo_schema [] with POk (e, _) => Some e | PErr _ => None end.
+
+Example exo_parses_and_decides :
+  match exo_elem with
+  | Some e =>
+    forallb (fun v => is_ok (build exo_O e (Some v)) && valid6 exo_O exo_schema v) exo_good = true /\
+    forallb (fun v => match build exo_O e (Some v) with Rej => negb (valid6 exo_O exo_schema v) | _ => false end) exo_bad = true
   | None => False
   end.
 Proof. vm_compute. split; reflexivity. Qed.
